@@ -499,7 +499,6 @@ Qed.
 
 (* ------------------------------------------------------------ phase 8 *)
 Definition stopcolon (c : N) : bool := (c =? 58) || (c =? 0).
-Definition stopbrk (c : N) : bool := (c =? 93) || (c =? 0).
 
 Lemma stop_nz_eq x k : byte_nz x -> ((x =? k) || (x =? 0)) = true -> x = k.
 Proof. intros Hx H. rewrite (nz_neq0 _ Hx), orb_false_r in H. apply N.eqb_eq. exact H. Qed.
@@ -564,8 +563,8 @@ Proof.
   rewrite E1. apply (cstr_at_at _ A ho R); auto.
 Qed.
 
-Lemma parse_hostport_spec resolver sch pre hp T : nz hp ->
-  match parse_hostport resolver sch (pre ++ hp ++ 0 :: T) (length pre) with
+Lemma parse_hostport_spec bf resolver sch pre hp T : nz hp ->
+  match parse_hostport bf resolver sch (pre ++ hp ++ 0 :: T) (length pre) with
   | UOob => False
   | UErr _ => True
   | UVal (b', h', port) =>
@@ -575,7 +574,7 @@ Lemma parse_hostport_spec resolver sch pre hp T : nz hp ->
   end.
 Proof.
   intros Hhp. unfold parse_hostport.
-  change (fun c : N => (c =? 93) || (c =? 0)) with stopbrk.
+  set (stopbrk := stop_bracket bf).
   change (fun c : N => (c =? 58) || (c =? 0)) with stopcolon.
   assert (Hc0: exists c0 r0, hp ++ 0 :: T = c0 :: r0 /\ (c0 = 91 -> exists hr, hp = 91 :: hr)).
   { destruct hp as [|c0 hr]; [exists 0, T | exists c0, (hr ++ 0 :: T)]; split; auto; try discriminate.
@@ -586,15 +585,20 @@ Proof.
   - (* bracketed literal *)
     destruct (H91 E91) as (hr & ->). clear H91 Er0 r0 E91 c0.
     apply nz_cons in Hhp. destruct Hhp as [_ Hhr].
-    rewrite (scan_at stopbrk _ (pre ++ [91]) hr T) by (try lsolve; try lensolve; reflexivity).
+    rewrite (scan_at stopbrk _ (pre ++ [91]) hr T) by (try lsolve; try lensolve; subst stopbrk; unfold stop_bracket; reflexivity).
     cbn [ulift ubind].
     destruct (stop_idx_split stopbrk hr) as [[H1 H2]|(ho & x & af & H1 & H2 & H3 & H4)].
     + rewrite H1. rewrite (brd_at _ (pre ++ 91 :: hr) 0 T) by (try lsolve; lensolve). cbn [ulift ubind].
-      change (0 =? 0) with true. cbn iota. cbn [ubind]. exact I.
+      change (0 =? 0) with true. cbn [orb]. cbn iota. cbn [ubind]. exact I.
     + subst hr. apply nz_app in Hhr. destruct Hhr as [Hho Hx]. apply nz_cons in Hx. destruct Hx as [Hx Haf].
-      assert (x = 93) by (apply stop_nz_eq; auto). subst x. rewrite <- H2.
-      rewrite (brd_at _ (pre ++ 91 :: ho) 93 (af ++ 0 :: T)) by (try lsolve; lensolve). cbn [ulift ubind].
-      change (93 =? 0) with false. cbn iota.
+      rewrite <- H2.
+      rewrite (brd_at _ (pre ++ 91 :: ho) x (af ++ 0 :: T)) by (try lsolve; lensolve). cbn [ulift ubind].
+      assert (Hx93: x = 93 \/ (bf = true /\ x = 91)).
+      { subst stopbrk. unfold stop_bracket in H3. rewrite (nz_neq0 _ Hx), orb_false_r in H3.
+        apply orb_true_iff in H3. destruct H3 as [H3|H3]; [left; apply N.eqb_eq; exact H3|].
+        apply andb_true_iff in H3. destruct H3 as [H3a H3b]. right. split; [exact H3a|apply N.eqb_eq; exact H3b]. }
+      destruct Hx93 as [->|[-> ->]]; [|cbn; exact I].
+      change (93 =? 0) with false. change (93 =? 91) with false. rewrite andb_false_r. cbn [orb]. cbn iota.
       rewrite (bwr_at _ (pre ++ 91 :: ho) 93 (af ++ 0 :: T) _ 0) by (try lsolve; lensolve). cbn [ulift ubind].
       destruct af as [|a0 ar].
       * (* nothing after the bracket *)
@@ -754,8 +758,8 @@ Proof.
     rewrite H7. cbn [ubind].
     assert (E7: P ++ tl7 = pre ++ hp' ++ 0 :: y1 :: y2 :: tl7) by (subst P; lsolve).
     rewrite E7.
-    pose proof (parse_hostport_spec resolver sch pre hp' (y1 :: y2 :: tl7) Hhp') as H8.
-    destruct (parse_hostport resolver sch (pre ++ hp' ++ 0 :: y1 :: y2 :: tl7) (length pre)) as [|rv|[[b8 h'] port]];
+    pose proof (parse_hostport_spec (fx_bracket fx) resolver sch pre hp' (y1 :: y2 :: tl7) Hhp') as H8.
+    destruct (parse_hostport (fx_bracket fx) resolver sch (pre ++ hp' ++ 0 :: y1 :: y2 :: tl7) (length pre)) as [|rv|[[b8 h'] port]];
       cbn [ubind]; auto.
     destruct H8 as (X2 & host & -> & HX2 & Hhost & Hhl & Hsub).
     (* the accessors *)
@@ -953,3 +957,14 @@ Proof.
   cbn zeta. rewrite Hpath, <- Eout. split; [|reflexivity].
   eapply canon_pure_idempotent; eauto.
 Qed.
+
+(* "tcp://[[x]" is accepted with the host "[x"; nng_url_sprintf prints it as
+   "tcp://[x:0", which the parser rejects: the round trip fails.  With the
+   repaired bracket scan the input is rejected. *)
+Definition bracket_url : list N := [116; 99; 112; 58; 47; 47; 91; 91; 120; 93].
+Lemma bracket_host_witness :
+  exists u out, url_parse (mkUflags true true true true false) no_resolver (bracket_url ++ [0]) = UVal u /\
+    url_sprintf u = Some out /\
+    url_parse (mkUflags true true true true false) no_resolver (out ++ [0]) = UErr NNG_EINVAL /\
+    url_parse fx_repaired no_resolver (bracket_url ++ [0]) = UErr NNG_EINVAL.
+Proof. vm_compute. eexists. eexists. repeat split. Qed.
